@@ -212,6 +212,8 @@ func wheelShape[K comparable, V any](w [][]node.Node[K, V], n int) bool {
 //@   loop 2: invariant [inner] wfWheel(v) && index >= 0 && index < 5
 //@   loop 2: assume [A-ring] n != nil
 //@   callback expireNode: requires [expired-node-exists] cb_n != nil
+//@   note C13: a timer met by the sweep that is not yet due is rescheduled through Add, i.e. by the placement rule of findBucket against the new wheel time (lemma L1 then re-establishes its invariant); it is never linked into a bucket by any other route
+//@   calls-only (*Variable).Add
 
 //@ func (*Variable).DeleteExpired : C13 C07
 //@   counted
